@@ -122,8 +122,9 @@ def rule_prune(ctx):
             pref = pd[0][1] if len(pd) == 1 else None
         pref_ok = const_value(pref) == b'U' and 'reverse' not in kws
         keyv = norm(lp.target.elts[0]) if isinstance(lp.target, ast.Tuple) else norm(lp.target)
-        decs = [s for s in lp.body if isinstance(s, ast.Assign) and isinstance(s.value, ast.Call) and norm(s.value.func) == 'unpack_be_uint32'
-                and norm(s.value.args[0]) == f'{keyv}[-4:]']
+        # the height decoded from the key: bound to a local first, or used where it is compared
+        decs = [c_ for c_ in walk_own(lp) if isinstance(c_, ast.Call) and norm(c_.func) == 'unpack_be_uint32' and c_.args
+                and norm(c_.args[0]) == f'{keyv}[-4:]']
         # per path through one row: height >= threshold => the scan stops, nothing collected; otherwise the key is collected
         from .. import paths as P
         app = [c for c in walk_own(lp) if isinstance(c, ast.Call) and isinstance(c.func, ast.Attribute) and c.func.attr == 'append'
@@ -132,7 +133,7 @@ def rule_prune(ctx):
         after = cond_ok
         n_stop = n_take = 0
         for pth in P.paths(lp.body) if cond_ok else []:
-            hexpr = f'{norm(decs[0].value)}[0]'
+            hexpr = f'{norm(decs[0])}[0]'
             keep = P.decided(ctx, f, pth, f'{hexpr} >= {mv}')
             took = any(st_ is q.stmt(app[0]) for st_, _e in pth.events)
             if keep is None:
